@@ -269,6 +269,70 @@ RUNNERS["self_join"] = run_self_join
 RUNNERS["derived_right"] = run_derived_right
 RUNNERS["label_accessor"] = run_label_accessor
 
+def run_special_keys(chk, spec):
+	"""key shapes that come out of a table's history rather than its construction: a date key meeting a datetime key (refused or answered - the operands
+	are left as they are and a later date-to-date join still hands out dates), a date key column PROMOTED to datetime by a write, a right table that
+	lost all its rows to a mask / slice (typed, zero-length key), composite string keys whose cells contain separator characters"""
+	import random, warnings
+	from datetime import date, datetime
+	rng = random.Random(spec["seed"])
+	how, variant = spec["how"], spec["variant"]
+	days = [date(2024, 3, 1 + i) for i in range(4)]
+	with warnings.catch_warnings():
+		warnings.simplefilter("ignore")
+		if variant == "date-vs-datetime":
+			L = Table({"day": [rng.choice(days) for _ in range(spec["nl"])], "lid": list(range(spec["nl"]))})
+			R = Table({"ts": [datetime(d.year, d.month, d.day) for d in rng.sample(days, 3)], "rid": ["a", "b", "c"]})
+			J.check_join(chk, chk.pid, "sampled", how, L, R, ["day"], ["ts"], key_mode=spec["key_mode"], expect="many_to_many", label="date-vs-datetime", sig=("special", variant, how, "first"))
+			R2 = Table({"d2": rng.sample(days, 3), "x": [1, 2, 3]})
+			J.check_join(chk, chk.pid, "sampled", "inner", L, R2, ["day"], ["d2"], key_mode=spec["key_mode"], expect="many_to_many", label="date-after-datetime-attempt", sig=("special", variant, how, "follow-up"), strict=True)
+		elif variant in ("left-promoted", "both-promoted"):
+			L = Table({"day": [rng.choice(days) for _ in range(spec["nl"])], "lid": list(range(spec["nl"]))})
+			L["day"][0] = datetime(2024, 3, 2, 9, 30)          # promotes the column in place: its cells are datetimes now
+			pool_ = [datetime(d.year, d.month, d.day) for d in days] + [datetime(2024, 3, 2, 9, 30), datetime(2024, 3, 2, 18, 0)]
+			if variant == "both-promoted":
+				R = Table({"ts": rng.sample(days, 3), "rid": ["a", "b", "c"]})
+				R["ts"][1] = datetime(2024, 3, 2, 18, 0)
+			else:
+				R = Table({"ts": rng.sample(pool_, 4), "rid": ["a", "b", "c", "d"]})
+			J.check_join(chk, chk.pid, "sampled", how, L, R, ["day"], ["ts"], key_mode=spec["key_mode"], expect="many_to_many", label=variant, sig=("special", variant, how))
+		elif variant in ("right-emptied-by-mask", "right-emptied-by-slice", "left-emptied-by-mask"):
+			L = Table({"k": [1, 2, 3][:spec["nl"]] or [1], "lid": ["p", "q", "r"][:spec["nl"]] or ["p"]})
+			R = Table({"r": [1, 2, 2, 5], "rid": [10, 20, 30, 40]})
+			if variant == "right-emptied-by-mask":
+				R = R[[False] * len(R)]
+			elif variant == "right-emptied-by-slice":
+				R = R[0:0]
+			else:
+				L, R = L[[False] * len(L)], Table({"r": [1, 2, 5], "rid": [10, 20, 40]})
+			J.check_join(chk, chk.pid, "sampled", how, L, R, ["k"], ["r"], key_mode=spec["key_mode"], expect=spec["expect"], label=variant, sig=("special", variant, how, spec["expect"]))
+		elif variant == "separator-strings":
+			cells_ = ["x", "y", "z", "x\x1fy", "y\x1fz", "", "\x1f", "x\x1f", "\x1fz", "x\x00y", "x\ty"]
+			nk = spec["nkeys"]
+			nl, nr = spec["nl"] + 1, rng.choice([2, 3, 5])
+			L = Table({**{f"k{j}": [rng.choice(cells_) for _ in range(nl)] for j in range(nk)}, "lid": list(range(nl))})
+			R = Table({**{f"r{j}": [rng.choice(cells_) for _ in range(nr)] for j in range(nk)}, "rid": list(range(nr))})
+			if nk == 2:
+				# the pair that a separator-joined key cannot tell apart, forced in
+				L[f"k0"][0], L[f"k1"][0] = "x\x1fy", "z"
+				R[f"r0"][0], R[f"r1"][0] = "x", "y\x1fz"
+			J.check_join(chk, chk.pid, "sampled", how, L, R, [f"k{j}" for j in range(nk)], [f"r{j}" for j in range(nk)], key_mode=spec["key_mode"], expect="many_to_many", label=variant, sig=("special", variant, how, nk))
+		else:
+			raise ValueError(variant)
+
+
+RUNNERS["special_keys"] = run_special_keys
+
+
+def special_cases(chk, hows, count):
+	rng = chk.rng
+	variants = ["date-vs-datetime", "left-promoted", "both-promoted", "right-emptied-by-mask", "right-emptied-by-slice", "left-emptied-by-mask", "separator-strings", "separator-strings"]
+	for how in hows:
+		for variant in variants:
+			for _ in range(count):
+				chk.case("special_keys", {"how": how, "variant": variant, "seed": rng.randrange(10**9), "nl": rng.choice([1, 2, 3, 4]), "key_mode": rng.choice(["name", "vector"]),
+					"expect": rng.choice(["many_to_one", "one_to_one", "many_to_many", "one_to_many"]), "nkeys": rng.choice([2, 2, 3])}, "special-keys")
+
 
 def run_repeated_key_column(chk, spec):
 	"""a composite key that names one column twice with different partners (ship_to = cust AND bill_to = cust; a = x AND a = y): every pair counts"""
@@ -392,3 +456,4 @@ def run(chk):
 	c10.chain_cases(chk, 150 if chk.quick() else 1000, ["inner"], ["inner"])
 	extra_cases(chk, HOW, 150 if chk.quick() else 1000)
 	label_cases(chk, [HOW])
+	special_cases(chk, [HOW], 4 if chk.quick() else 25)
